@@ -5,7 +5,7 @@ from vcheck import cN, cbool
 
 id = "C10"
 engine = "sched"
-coq_imports = ["Model.Base", "Model.Events", "Model.Sched", "Model.SchedSpec", "Check.SchedCheck", "Check.C10bCheck"]
+coq_imports = ["Model.Base", "Model.Events", "Model.Sched", "Model.SchedSpec", "Check.SchedCheck", "Check.C02bCheck", "Check.C10bCheck"]
 case_type = "hcase"
 model_name = "Sched.hook_suppressed along the replayed run"
 monitor_name = "C10bCheck.c10b_ok (counting process panic hook)"
